@@ -832,10 +832,10 @@ def _parse_unit(input_: str) -> Optional[Unit]:
         raise TypeError(f"type str expected for 'input_', got {type(input_)}")
     if input_ in getattr(PreferredUnits, '__dataclass_fields__'):
         return getattr(PreferredUnits, input_)
-    try:
-        return Unit[input_]
-    except KeyError:
-        return _find_unit_by_alias(input_, UnitAliases)
+    for unit in Unit:  # enumeration names, in any letter case (input_ is lower-cased)
+        if unit.name.lower() == input_:
+            return unit
+    return _find_unit_by_alias(input_, UnitAliases)
 
 
 def _parse_value(input_: Union[str, float, int],
